@@ -628,6 +628,8 @@ def extern(interp, src, orig):
 
 def host_getattr(interp, o, name):
     IM = I()
+    if hasattr(o, "sym_getattr"):
+        return o.sym_getattr(interp, name)
     if isinstance(o, _Mod):
         if o.name == "hashlib" and name in KNOWN_HASHES:
             ds, bs = KNOWN_HASHES[name]
@@ -731,6 +733,8 @@ def host_getattr(interp, o, name):
 
 def host_getitem(interp, cont, idx):
     IM = I()
+    if hasattr(cont, "sym_getitem"):
+        return cont.sym_getitem(interp, idx)
     from .anyval import SAny, SymSeq
     if isinstance(cont, SAny):
         cont = cont.as_bytes(interp)
